@@ -126,7 +126,8 @@ theorem world_ops_preserve_id (info : CompId → CompInfo) (w : WM) (op : Op Han
   step_wid info w op
 
 /-- so is every per-world operation the executable model driver (`driver worlds`, the stream diffed against the real
-    library) issues: whatever the op line, the bookkeeping and the world, `lineEffect` leaves `worldId` alone -/
+    library) issues: whatever the op line, the bookkeeping and the world, `lineEffect` (the world driver's `step` behind a
+    guard on the id) leaves `worldId` alone — the histories the tie runs are inside `IdPreserving` -/
 theorem driver_ops_preserve_id (side : Mustache.Driver.World.St) (line : String) (w : WM) :
     (Mustache.Driver.Worlds.lineEffect side line w).worldId = w.worldId :=
   Mustache.Proofs.WorldsDriver.lineEffect_wid side line w
